@@ -2,7 +2,7 @@
    Only property theorems here, each closed by `exact <lemma>`; proofs are in Proofs*.v; Link.v ties the character
    test of valid_sid to the source.  `fresh` is the random source (i-th identifier); the theorems that need it assume
    that it yields well-formed (fresh_ok) resp. pairwise distinct (fresh_inj) identifiers. *)
-From CppcmsV Require Import Base.Tac C06.Defs C06.Proofs C06.ProofsNum C06.ProofsMap C06.Proofs2 C06.Proofs3 C06.Proofs4 C06.Proofs5 C06.Proofs6 C06.Proofs7 C06.Proofs8 C06.Proofs10 C06.Proofs9 C06.Proofs11.
+From CppcmsV Require Import Base.Tac C06.Defs C06.Proofs C06.ProofsNum C06.ProofsMap C06.Proofs2 C06.Proofs3 C06.Proofs4 C06.Proofs5 C06.Proofs6 C06.Proofs7 C06.Proofs8 C06.Proofs10 C06.Proofs9 C06.Proofs11 C06.Proofs12 C06.Proofs13 C06.ProofsWin C06.ProofsWin2 C06.ProofsWin3 C06.Proofs14 C06.Proofs15 C06.Proofs16 C06.Proofs17.
 Local Open Scope N_scope.
 
 (* ------------------------------------------------------------------------------------------------------------
@@ -69,6 +69,40 @@ Print Assumptions reset_fresh.
 (* ------------------------------------------------------------------------------------------------------------
    5. what a save leaves and what a load reads (one request each).  `skipped` is the pair of early returns of
       save(): fixed & unchanged, renew/browser unchanged within the 10 % window (IEEE double comparison). *)
+(* the 10 % window: save() evaluates  delta < timeout_val_ * 0.1  in IEEE double (delta = now + timeout_val_ - timeout_in_, the
+   time since the last renewal); the model computes that double comparison bit-exactly (tenth_gt: product with the double
+   nearest to 0.1, rounded to 53 bits, ties to even).  renew_window_is_exactly_a_tenth: for every timeout an int can hold
+   and every delta the IEEE comparison IS the integer comparison 10 * delta < timeout - an unchanged session is not rewritten
+   strictly inside the first tenth of its period and is renewed from exactly one tenth on; neither the rounding of 0.1 nor
+   that of the product ever changes the outcome (at 10 * delta = timeout the exact product delta * 2^55 + 2 * delta is less
+   than half an ulp above delta * 2^55 and rounds down).  renew_window_is_a_tenth is the part that follows from the error
+   bound of one rounding alone. *)
+Theorem renew_window_is_exactly_a_tenth : forall delta tval, (0 <= tval < 2147483648)%Z ->
+  tenth_gt delta tval = (10 * delta <? tval)%Z.
+Proof. exact tenth_gt_is_integer_test. Qed.
+Print Assumptions renew_window_is_exactly_a_tenth.
+Theorem renew_window_is_a_tenth : forall delta tval, (0 <= tval < 2147483648)%Z ->
+  ((10 * delta < tval)%Z -> tenth_gt delta tval = true) /\ ((tval < 10 * delta)%Z -> tenth_gt delta tval = false).
+Proof. exact tenth_gt_exact. Qed.
+Print Assumptions renew_window_is_a_tenth.
+(* the save policy in readable form.  An unchanged session (data equal to what was loaded, not new, not reset): in fixed
+   mode it is never rewritten; in renew / browser mode it is rewritten exactly when at least a tenth of the period has passed
+   since the deadline was last set (s_tin = that deadline).  A changed / new / reset session is always written. *)
+Theorem unchanged_session_save_policy : forall now s,
+  dmap_eqb (s_data s) (s_copy s) = true -> newsess_of s = false -> (0 <= s_tval s < 2147483648)%Z ->
+  (s_how s = 0%Z -> skipped now s = true) /\
+  (s_how s = 1%Z \/ s_how s = 2%Z -> skipped now s = (10 * (now + s_tval s - s_tin s) <? s_tval s)%Z).
+Proof. exact unchanged_policy. Qed.
+Print Assumptions unchanged_session_save_policy.
+Theorem changed_session_is_written : forall now s,
+  dmap_eqb (s_data s) (s_copy s) = false \/ newsess_of s = true -> skipped now s = false.
+Proof. exact changed_is_written. Qed.
+Print Assumptions changed_session_is_written.
+Example renew_window_boundary :
+  tenth_gt 2 30 = true /\ tenth_gt 3 30 = false /\ tenth_gt 4 30 = false /\ tenth_gt 0 10 = true /\ tenth_gt 1 10 = false /\
+  tenth_gt 359 3600 = true /\ tenth_gt 360 3600 = false /\ tenth_gt 7 70 = false /\ tenth_gt (-1) 0 = true /\ tenth_gt 0 0 = false.
+Proof. vm_compute. repeat split. Qed.
+
 Theorem server_save_leaves_exact_record : forall fresh, (forall n, sid_ok (fresh n) = true) ->
   forall c w b s blob,
   c_loc c = 0 -> dempty (s_data s) = false -> ssorted (s_data s) -> skipped (w_now w) s = false ->
@@ -193,8 +227,8 @@ Proof. exact expired_history. Qed.
 Print Assumptions session_ends_at_deadline.
 
 (* end to end (session_refines_spec for sessions kept on the server): request r1 of browser b ends its script in state s'
-   (req_state; the script does not touch the reserved keys and does not call clear(), see settings-lost-by-clear in
-   docs/C06.md) and saves it; then ANY history of other browsers / clock / attacker strings other than b's cookie; then
+   (req_state; op_keeps: the script does not address the reserved keys _t/_h/_s directly - clear(), age(), expiration(),
+   on_server() and their default_ forms are all allowed) and saves it; then ANY history of other browsers / clock / attacker strings other than b's cookie; then
    the next request of b reads exactly s': values and exposed flags, age, expiration mode, on-server flag - while
    now <= the deadline given by the expiration mode and the browser still holds the cookie.
    Premises on the world before r1 (both are invariants of every world reachable by fair histories, see below): storage
@@ -305,6 +339,57 @@ Theorem session_refines_spec_stored_in_cookie : forall fresh c w b script1 s' bl
 Proof. exact end_to_end_stored_in_cookie. Qed.
 Print Assumptions session_refines_spec_stored_in_cookie.
 
+(* age / expiration / on_server are always recorded (repaired code, /repo 7f3def5).  `consistent c s`: the data map is well
+   formed and age(), expiration(), on_server() are exactly what its entries _t, _h, _s say - the configured defaults when
+   an entry is absent.  It holds for what load() produces and is preserved by EVERY script that does not address the reserved
+   keys directly: set/erase/expose/hide of other keys, age, default_age, expiration, default_expiration, on_server,
+   reset_session and clear() - clear() empties the map and puts the three settings back to the defaults.  Hence what a
+   request saves always determines what the next request reads (the premise of the end-to-end theorems above). *)
+Theorem settings_always_recorded : forall c s script,
+  forallb op_keeps script = true -> consistent c s -> consistent c (apply_ops c s script).
+Proof. intros c s script. exact (consistent_ops c script s). Qed.
+Print Assumptions settings_always_recorded.
+Theorem loaded_settings_recorded : forall c w b w1 l ld s, si_load c w b = (w1, l, inl (ld, s)) -> consistent c s.
+Proof. exact si_load_consistent. Qed.
+Print Assumptions loaded_settings_recorded.
+Theorem clear_restores_defaults : forall c s script,
+  forallb op_keeps script = true ->
+  let s1 := apply_ops c (apply_op c s Oclear) script in
+  consistent c s1 /\ s_data (apply_op c s Oclear) = [] /\ s_tval (apply_op c s Oclear) = c_timeout c /\
+  s_how (apply_op c s Oclear) = c_how c /\ s_onsrv (apply_op c s Oclear) = false.
+Proof.
+  intros c s script H. cbv zeta. split; [|repeat split].
+  apply consistent_ops; [exact H|]. unfold consistent. cbn [apply_op s_data s_tval s_how s_onsrv].
+  split; [exact I|]. split; [reflexivity|]. split; [reflexivity|]. exists 0%Z. split; reflexivity.
+Qed.
+Print Assumptions clear_restores_defaults.
+(* regression of the repaired defect settings-lost-by-clear (corpus/C06/regress_settings_after_clear.case): default 100 s renew;
+   request 1: age(5) expiration(fixed) on_server(true) clear() set a=1.  The record lives 100 s (not 5), requests 2 and 3
+   (6 s later: before the repair the 5 s had passed AND the record had been renewed to 100 s) read 100 / renew / not on server *)
+Example settings_after_clear_regression :
+  let '(w, obs) := run fresh_hex (mkcfg 0 1 100%Z 64) world0
+                       [StR 0 [Oage 5%Z; Ohow 0%Z; Oonsrv true; Oclear; Oset [97] [49]]; StR 0 []; StT 6%Z; StR 0 []] in
+  obs = [Some (mkobs (Some (false, [], 100%Z, 1%Z, false)) None [OpS (fresh_hex 0) 1000100%Z [1;8;0;0;97;49]]);
+         Some (mkobs (Some (true, [([97], ([49], false))], 100%Z, 1%Z, false)) None [OpL (fresh_hex 0) true]);
+         None;
+         Some (mkobs (Some (true, [([97], ([49], false))], 100%Z, 1%Z, false)) None [OpL (fresh_hex 0) true])] /\
+  st_find (fresh_hex 0) (w_store w) = Some (1000100%Z, [1;8;0;0;97;49]) /\
+  consistent (mkcfg 0 1 100%Z 64) (apply_ops (mkcfg 0 1 100%Z 64) (sess0 (mkcfg 0 1 100%Z 64)) [Oage 5%Z; Ohow 0%Z; Oonsrv true; Oclear; Oset [97] [49]]).
+Proof.
+  match goal with |- let '(w, obs) := ?r in _ => let v := eval vm_compute in r in change r with v end.
+  cbv iota beta. split; [vm_compute; reflexivity|]. split; [vm_compute; reflexivity|].
+  apply settings_always_recorded; [reflexivity|apply consistent_sess0].
+Qed.
+
+(* the same for on_server in the dual back-end: on_server(true) then clear() then a small payload - the session goes into the
+   cookie (before the repair it was stored on the server while the next request read on_server() = false) *)
+Example clear_resets_on_server_regression :
+  let c := mkcfg 2 1 100%Z 64 in
+  let '(w, o) := request fresh_hex c world0 0 [Oonsrv true; Oclear; Oset [97] [49]] in
+  j_sess (get_jar w 0) = Some (CEnc 1000100%Z [1;8;0;0;97;49], EAt 1000100%Z) /\ w_store w = [] /\ o_log o = [] /\
+  o_loaded (snd (request fresh_hex c w 0 [])) = Some (true, [([97], ([49], false))], 100%Z, 1%Z, false).
+Proof. vm_compute. repeat split. Qed.
+
 Theorem decimal_settings_roundtrip : forall z, parse_Z (show_Z z) = Some z.
 Proof. exact parse_show_Z. Qed.
 Print Assumptions decimal_settings_roundtrip.
@@ -340,8 +425,49 @@ Proof.
     repeat constructor; try discriminate; try lia.
 Qed.
 
+(* the same across the browser's own unchanged requests: between the request that left the session and the one that reads it
+   the history may also contain any number of requests of b itself whose save takes an early return (mixed_run: each step is
+   a foreign step or such a request of b) *)
+Theorem session_carries_over_own_unchanged_requests : forall fresh, (forall m n, fresh m = fresh n -> m = n) ->
+  forall c b id dl blob ex xj l w m t h sv script,
+  c_loc c <> 1 ->
+  holds fresh b id (dl, blob) (mkjar (Some (CRaw (73 :: id), ex)) xj) w ->
+  sid_ok id = true ->
+  mixed_run fresh c b id w l ->
+  load_data blob = LOk m ->
+  special k_t m (c_timeout c) = Some t -> special k_h m (c_how c) = Some h -> special k_s m 0%Z = Some sv ->
+  let w2 := fst (run fresh c w l) in
+  (w_now w2 <= dl)%Z -> exp_live (w_now w2) ex = true ->
+  o_loaded (snd (request fresh c w2 b script)) = Some (true, m, t, h, Z.odd sv).
+Proof. exact carry_over_mixed. Qed.
+Print Assumptions session_carries_over_own_unchanged_requests.
+Definition mx_l : list step := [StT 2%Z; StR 0 []; StR 1 [Oset [98] [50]]; StT 1%Z; StR 0 [Oset [99] [51]; Oerase [99]]].
+Example own_unchanged_requests_nonvacuous :
+  mixed_run ex_fresh ex_cfg 0 ex_id ex_w mx_l /\
+  o_loaded (snd (request ex_fresh ex_cfg (fst (run ex_fresh ex_cfg ex_w mx_l)) 0 [Oset [98] [50]]))
+    = Some (true, [([95; 116], ([53; 48], false)); ([97], ([49], true))], 50%Z, 1%Z, false).
+Proof.
+  assert (mixed_run ex_fresh ex_cfg 0 ex_id ex_w mx_l) as Hm.
+  { unfold mx_l. cbn [mixed_run].
+    split; [left; cbn [foreign_step]; lia|].
+    split; [right; eexists _, _; split; [reflexivity|]; split; [vm_compute; reflexivity|]; split; vm_compute; reflexivity|].
+    split; [left; cbn [foreign_step]; discriminate|].
+    split; [left; cbn [foreign_step]; lia|].
+    split; [right; eexists _, _; split; [reflexivity|]; split; [vm_compute; reflexivity|]; split; vm_compute; reflexivity|].
+    exact I. }
+  split; [exact Hm|].
+  assert (holds ex_fresh 0 ex_id (1000050%Z, ex_blob) (mkjar (Some (CRaw (73 :: ex_id), EAt 1000050%Z)) []) ex_w) as Hh.
+  { unfold holds. split; [reflexivity|]. split; [reflexivity|]. split; [exists 48; split; [reflexivity|reflexivity]|].
+    intros b' Hb. destruct b' as [|b']; [congruence|]. unfold get_jar, ex_w. cbn [w_jars nth]. destruct b'; discriminate. }
+  assert (w_now (fst (run ex_fresh ex_cfg ex_w mx_l)) <= 1000050)%Z as Hn by (vm_compute; discriminate).
+  assert (exp_live (w_now (fst (run ex_fresh ex_cfg ex_w mx_l))) (EAt 1000050%Z) = true) as Hl by (vm_compute; reflexivity).
+  exact (session_carries_over_own_unchanged_requests ex_fresh ex_fresh_inj ex_cfg 0%nat ex_id 1000050%Z ex_blob (EAt 1000050%Z) [] mx_l ex_w
+           [([95; 116], ([53; 48], false)); ([97], ([49], true))] 50%Z 1%Z 0%Z [Oset [98] [50]]
+           ltac:(discriminate) Hh eq_refl Hm eq_refl eq_refl eq_refl eq_refl Hn Hl).
+Qed.
+
 Definition ex_w0 : world := mkworld 1000000%Z [] [] 48 [].
-Definition ex_script1 : list scr := [Oset [97] [49]; Oexpose [97]; Oage 50%Z; Oonsrv true].
+Definition ex_script1 : list scr := [Oage 5%Z; Ohow 0%Z; Oset [98] [50]; Oclear; Oset [97] [49]; Oexpose [97]; Oage 50%Z; Oonsrv true].
 Definition ex_l : list step := [StT 10%Z; StR 1 [Oset [98] [50]]; StAraw 1 (73 :: ex_fresh 49); StR 1 [Oreset]; StT 30%Z; StR 2 [Oclear]].
 Example end_to_end_nonvacuous :
   o_loaded (snd (request ex_fresh ex_cfg (fst (run ex_fresh ex_cfg (fst (request ex_fresh ex_cfg ex_w0 0 ex_script1)) ex_l)) 0 [Oclear]))
@@ -357,6 +483,58 @@ Proof.
   - intros b' id Hb H. unfold get_jar, ex_w0 in H. cbn [w_jars] in H. destruct b'; discriminate H.
   - intros id H. vm_compute in H. injection H as <-. repeat constructor; try discriminate; try lia.
   - vm_compute. discriminate.
+Qed.
+
+(* end to end over histories that also contain the browser's own unchanged requests: session_refines_spec_stored_on_server with
+   `mixed_run` (every step: a foreign step, or a request of b itself whose save takes an early return) in place of the
+   purely foreign history *)
+Theorem session_refines_spec_own_unchanged_requests : forall fresh, (forall m n, fresh m = fresh n -> m = n) ->
+  forall c w b script1 s' blob ex l script2,
+  server_side c s' blob ->
+  sid_ok (fresh (w_next w)) = true ->
+  store_issued fresh w -> jars_not_future fresh w ->
+  (forall b' id, b' <> b -> valid_sid (j_sess (get_jar w b')) = Some id -> valid_sid (j_sess (get_jar w b)) <> Some id) ->
+  req_state c w b script1 = Some s' ->
+  forallb op_keeps script1 = true ->
+  dempty (s_data s') = false -> skipped (w_now w) s' = false -> save_data (s_data s') = Some blob ->
+  age_exp (w_now w) (cookie_age (w_now w) s' (newsess_of s')) = Some ex ->
+  let w1 := fst (request fresh c w b script1) in
+  (forall id, valid_sid (j_sess (get_jar w1 b)) = Some id -> mixed_run fresh c b id w1 l) ->
+  let w2 := fst (run fresh c w1 l) in
+  (w_now w2 <= session_age (w_now w) s' (newsess_of s'))%Z -> exp_live (w_now w2) ex = true ->
+  o_loaded (snd (request fresh c w2 b script2)) = Some (true, s_data s', s_tval s', s_how s', s_onsrv s').
+Proof. exact end_to_end_stored_on_server_mixed. Qed.
+Print Assumptions session_refines_spec_own_unchanged_requests.
+Definition mx_s : sess := mksess [([95; 115], ([49], false)); ([95; 116], ([53; 48], false)); ([97], ([49], true))] [] 50%Z 1%Z 0%Z true false.
+Definition mx_w1 : world := Eval vm_compute in fst (request ex_fresh ex_cfg ex_w0 0 ex_script1).
+Definition mx_l2 : list step := [StT 2%Z; StR 0 []; StR 1 [Oset [98] [50]]; StAraw 1 (73 :: ex_fresh 49); StT 1%Z; StR 0 [Oset [99] [51]; Oerase [99]]; StR 2 [Oclear]].
+Example end_to_end_own_requests_nonvacuous :
+  o_loaded (snd (request ex_fresh ex_cfg (fst (run ex_fresh ex_cfg (fst (request ex_fresh ex_cfg ex_w0 0 ex_script1)) mx_l2)) 0 [Oclear]))
+  = Some (true, s_data mx_s, s_tval mx_s, s_how mx_s, s_onsrv mx_s).
+Proof.
+  assert (fst (request ex_fresh ex_cfg ex_w0 0 ex_script1) = mx_w1) as Ew by (vm_compute; reflexivity).
+  assert (mixed_run ex_fresh ex_cfg 0 (ex_fresh 48) mx_w1 mx_l2) as Hm.
+  { unfold mx_l2. cbn [mixed_run].
+    split; [left; cbn [foreign_step]; lia|].
+    split; [right; eexists _, _; split; [reflexivity|]; split; [vm_compute; reflexivity|]; split; vm_compute; reflexivity|].
+    split; [left; cbn [foreign_step]; discriminate|].
+    split; [left; cbn [foreign_step]; split; discriminate|].
+    split; [left; cbn [foreign_step]; lia|].
+    split; [right; eexists _, _; split; [reflexivity|]; split; [vm_compute; reflexivity|]; split; vm_compute; reflexivity|].
+    split; [left; cbn [foreign_step]; discriminate|].
+    exact I. }
+  refine (session_refines_spec_own_unchanged_requests ex_fresh ex_fresh_inj ex_cfg ex_w0 0%nat ex_script1 mx_s
+            [2;8;0;0;95;115;49; 2;16;0;0;95;116;53;48; 1;12;0;0;97;49] (EAt 1000050%Z) mx_l2 [Oclear]
+            (or_introl eq_refl) eq_refl _ _ _ _ eq_refl eq_refl _ eq_refl _ _ _ _).
+  - intros id H. contradiction H. reflexivity.
+  - intros b id H. unfold get_jar, ex_w0 in H. cbn [w_jars] in H. destruct b; discriminate H.
+  - intros b' id Hb H. unfold get_jar, ex_w0 in H. cbn [w_jars] in H. destruct b'; discriminate H.
+  - vm_compute; reflexivity.
+  - vm_compute; reflexivity.
+  - vm_compute; reflexivity.
+  - rewrite Ew. intros id H. vm_compute in H. injection H as <-. exact Hm.
+  - rewrite Ew. vm_compute. discriminate.
+  - rewrite Ew. vm_compute. reflexivity.
 Qed.
 
 (* the closed form on a concrete fair prefix: another browser creates a session, an attacker plants a literal *)
@@ -391,6 +569,51 @@ Proof.
   eapply (session_refines_spec_client ex_fresh (mkcfg 1 0 100%Z 64) ex_w0 0%nat [Oset [97] [49]; Oexpose [97]; Oage 50%Z] s' _ (EAt 1000050%Z));
     try reflexivity.
   repeat constructor; discriminate.
+Qed.
+
+(* the same for sessions kept in the cookie (location client, or both below the limit): session_refines_spec_stored_in_cookie
+   over histories that are quiet for b (quiet_run): anything elsewhere, clock advances, and b's own unchanged requests *)
+Theorem session_refines_spec_in_cookie_own_unchanged_requests : forall fresh c w b script1 s' blob ex l script2,
+  client_side c s' blob ->
+  req_state c w b script1 = Some s' ->
+  forallb op_keeps script1 = true ->
+  dempty (s_data s') = false -> skipped (w_now w) s' = false -> save_data (s_data s') = Some blob ->
+  age_exp (w_now w) (cookie_age (w_now w) s' (newsess_of s')) = Some ex ->
+  let w1 := fst (request fresh c w b script1) in
+  quiet_run fresh c b w1 l ->
+  let w2 := fst (run fresh c w1 l) in
+  (w_now w2 <= session_age (w_now w) s' (newsess_of s'))%Z -> exp_live (w_now w2) ex = true ->
+  o_loaded (snd (request fresh c w2 b script2)) = Some (true, s_data s', s_tval s', s_how s', s_onsrv s').
+Proof. exact end_to_end_stored_in_cookie_quiet. Qed.
+Print Assumptions session_refines_spec_in_cookie_own_unchanged_requests.
+Definition ck_c : cfg := mkcfg 1 0 100%Z 64.
+Definition ck_script : list scr := [Oonsrv true; Oclear; Oset [97] [49]; Oexpose [97]; Oage 50%Z].
+Definition ck_s : sess := mksess [([95; 116], ([53; 48], false)); ([97], ([49], true))] [] 50%Z 0%Z 0%Z false false.
+Definition ck_w1 : world := Eval vm_compute in fst (request ex_fresh ck_c ex_w0 0 ck_script).
+Definition ck_l : list step := [StT 10%Z; StR 0 []; StR 1 [Oset [98] [50]]; StAhist 1 0 Mid; StR 0 [Oset [99] [51]; Oerase [99]]; StT 39%Z].
+Example end_to_end_cookie_own_requests_nonvacuous :
+  o_loaded (snd (request ex_fresh ck_c (fst (run ex_fresh ck_c (fst (request ex_fresh ck_c ex_w0 0 ck_script)) ck_l)) 0 []))
+  = Some (true, s_data ck_s, s_tval ck_s, s_how ck_s, s_onsrv ck_s).
+Proof.
+  assert (fst (request ex_fresh ck_c ex_w0 0 ck_script) = ck_w1) as Ew by (vm_compute; reflexivity).
+  assert (quiet_run ex_fresh ck_c 0 ck_w1 ck_l) as Hq.
+  { unfold ck_l. cbn [quiet_run quiet_step not_on].
+    split; [lia|].
+    split; [right; eexists; split; [vm_compute; reflexivity|]; split; vm_compute; reflexivity|].
+    split; [left; discriminate|].
+    split; [discriminate|].
+    split; [right; eexists; split; [vm_compute; reflexivity|]; split; vm_compute; reflexivity|].
+    split; [lia|]. exact I. }
+  refine (session_refines_spec_in_cookie_own_unchanged_requests ex_fresh ck_c ex_w0 0%nat ck_script ck_s
+            [2;16;0;0;95;116;53;48; 1;12;0;0;97;49] (EAt 1000050%Z) ck_l []
+            (or_introl (conj eq_refl eq_refl)) _ eq_refl eq_refl _ _ _ _ _ _).
+  - vm_compute; reflexivity.
+  - vm_compute; reflexivity.
+  - vm_compute; reflexivity.
+  - vm_compute; reflexivity.
+  - rewrite Ew. exact Hq.
+  - rewrite Ew. vm_compute. discriminate.
+  - rewrite Ew. vm_compute. reflexivity.
 Qed.
 
 (* the dual back-end: a session that lives in the cookie is moved to the server by a payload above the limit (r1), is read
@@ -434,18 +657,21 @@ Proof. vm_compute. repeat split. Qed.
 
 (* ------------------------------------------------------------------------------------------------------------
    8. exposed_in_step.
-      Proved half: after any save that reaches update_exposed, every prefix_key cookie left in the jar belongs to
-      a key that the session exposes (hidden / erased / unknown keys disappear).
-      The other half (every exposed non-empty value is in a live cookie while the session is alive) is REFUTED by
-      the faithful model: exposed_in_step_refuted (KNOWN FINDING exposed-cookie-expired-before-session, replayed on
-      the implementation by corpus/C06/finding_exposed_expiry.case).
-      Full statement that does not hold:
-        forall histories, after each request of b whose session is alive and exposes k with value v <> "",
-        the jar of b contains prefix_k = v with a lifetime not shorter than the session cookie. *)
-Theorem exposed_cookies_only_for_exposed_keys_partial : forall now age force s x kv,
+      (i)   after any save that reaches update_exposed, every prefix_key cookie left in the jar belongs to a key that the
+            session exposes (hidden / erased / unknown keys disappear);
+      (ii)  every exposed non-empty value that is new / changed / newly exposed, or any one when the update is forced, is
+            sent with the lifetime of the session cookie;
+      (iii) exposed_save_in_step / exposed_in_step (repaired code, /repo fc690f4): a save that goes through in RENEW mode
+            leaves the cookie of EVERY exposed non-empty value in the jar with exactly the lifetime of the session cookie,
+            and after any history that does not touch that browser the browser holds all of them for as long as it holds
+            the session cookie.
+      Not proved as a theorem over all modes: for expiration browser, and for reset_session() in fixed mode, the
+      implementation (and the faithful model) does not re-send unchanged exposed values although the session cookie gets
+      a later end (KNOWN FINDING exposed-cookie-not-renewed-with-session-cookie, see exposed_not_renewed_refuted). *)
+Theorem exposed_cookies_only_for_exposed_keys : forall now age force s x kv,
   In kv (update_exposed now age force s x) -> is_exposed (fst kv) (s_data s) = true.
 Proof. intros now age force s x kv H. unfold update_exposed in H. apply filter_In in H. exact (proj2 H). Qed.
-Print Assumptions exposed_cookies_only_for_exposed_keys_partial.
+Print Assumptions exposed_cookies_only_for_exposed_keys.
 
 (* proved positive half: the cookie of every exposed entry with a non-empty value that is new, changed or newly exposed
    (entry_changed w.r.t. what was loaded), and of every exposed entry when the update is forced (an unchanged session
@@ -463,21 +689,206 @@ Example exposed_sent_nonvacuous :
                      [([98], ([57], ESession)); ([122], ([57], ESession))]).
 Proof. apply exposed_changed_or_forced_is_sent; try reflexivity; [cbn; repeat constructor|discriminate|right; reflexivity]. Qed.
 
-Theorem exposed_in_step_refuted :
+(* one save that goes through (not empty, not one of the two early returns, no exception): the session cookie has the
+   lifetime ex of cookie_age; in renew mode the cookie of every exposed non-empty value is in the jar with the same ex
+   (in the other modes: of every value that is new / changed / newly exposed) *)
+Theorem exposed_save_in_step : forall fresh c w b s blob w1 l1 ex,
+  dempty (s_data s) = false -> ssorted (s_data s) -> skipped (w_now w) s = false -> save_data (s_data s) = Some blob ->
+  si_save fresh c w b s = (w1, l1, None) ->
+  age_exp (w_now w) (cookie_age (w_now w) s (newsess_of s)) = Some ex ->
+  (exists ck, j_sess (get_jar w1 b) = Some (ck, ex)) /\
+  forall k v, dfind k (s_data s) = Some (v, true) -> v <> [] ->
+    s_how s = 1%Z \/ entry_changed (s_copy s) k v = true ->
+    In (k, (v, ex)) (j_exp (get_jar w1 b)).
+Proof. exact si_save_exposed. Qed.
+Print Assumptions exposed_save_in_step.
+
+(* a request that ends in state s (any script, any location, any back-end) and saves it; then ANY history that does not
+   act on browser b (requests of others, clock advances, attacker cookies, planted cookies and records elsewhere): while
+   the browser still holds the session cookie (exp_live .. ex), it holds the cookie of every exposed value of s - all
+   of them in renew mode *)
+Theorem exposed_in_step : forall fresh c w b script1 s' blob ex l,
+  req_state c w b script1 = Some s' ->
+  dempty (s_data s') = false -> skipped (w_now w) s' = false -> save_data (s_data s') = Some blob ->
+  o_exc (snd (request fresh c w b script1)) = None ->
+  age_exp (w_now w) (cookie_age (w_now w) s' (newsess_of s')) = Some ex ->
+  let w1 := fst (request fresh c w b script1) in
+  Forall (not_on b) l ->
+  let w2 := fst (run fresh c w1 l) in
+  exp_live (w_now w2) ex = true ->
+  let j := jar_expire (w_now w2) (get_jar w2 b) in
+  (exists ck, j_sess j = Some (ck, ex)) /\
+  forall k v, dfind k (s_data s') = Some (v, true) -> v <> [] ->
+    s_how s' = 1%Z \/ entry_changed (s_copy s') k v = true ->
+    In (k, (v, ex)) (j_exp j).
+Proof. exact exposed_in_step_history. Qed.
+Print Assumptions exposed_in_step.
+Definition xs_c : cfg := mkcfg 0 1 10%Z 64.
+Definition xs_w : world := Eval vm_compute in fst (run fresh_hex xs_c world0 [StR 0 [Oset [97] [49]; Oexpose [97]]; StT 5%Z]).
+Definition xs_s : sess := mksess [([97], ([49], true)); ([98], ([50], false))] [([97], ([49], true))] 10%Z 1%Z 1000010%Z false false.
+Definition xs_l : list step := [StT 9%Z; StR 1 [Oset [97] [57]; Oexpose [97]]; StX 1 [97] [49]; StAhist 1 0 Mid].
+Example exposed_in_step_nonvacuous :
+  (* browser 0 has a=1 exposed since 5 s (renew, 10 s); it stores b=2: unchanged a is re-sent; 9 s and a foreign history later
+     the browser still holds both cookies, with the same end *)
+  let w2 := fst (run fresh_hex xs_c (fst (request fresh_hex xs_c xs_w 0 [Oset [98] [50]])) xs_l) in
+  let j := jar_expire (w_now w2) (get_jar w2 0) in
+  entry_changed [([97], ([49], true))] [97] [49] = false /\
+  (exists ck, j_sess j = Some (ck, EAt 1000015%Z)) /\ In ([97], ([49], EAt 1000015%Z)) (j_exp j).
+Proof.
+  cbv zeta. split; [reflexivity|].
+  assert (req_state xs_c xs_w 0 [Oset [98] [50]] = Some xs_s) as P1 by (vm_compute; reflexivity).
+  assert (skipped (w_now xs_w) xs_s = false) as P3 by (vm_compute; reflexivity).
+  assert (save_data (s_data xs_s) = Some [1;12;0;0;97;49;1;8;0;0;98;50]) as P4 by (vm_compute; reflexivity).
+  assert (o_exc (snd (request fresh_hex xs_c xs_w 0 [Oset [98] [50]])) = None) as P5 by (vm_compute; reflexivity).
+  assert (age_exp (w_now xs_w) (cookie_age (w_now xs_w) xs_s (newsess_of xs_s)) = Some (EAt 1000015%Z)) as P6 by (vm_compute; reflexivity).
+  assert (Forall (not_on 0) xs_l) as P7 by (repeat constructor; discriminate).
+  assert (exp_live (w_now (fst (run fresh_hex xs_c (fst (request fresh_hex xs_c xs_w 0 [Oset [98] [50]])) xs_l))) (EAt 1000015%Z) = true) as P8
+    by (vm_compute; reflexivity).
+  destruct (exposed_in_step fresh_hex xs_c xs_w 0%nat [Oset [98] [50]] xs_s [1;12;0;0;97;49;1;8;0;0;98;50] (EAt 1000015%Z) xs_l
+              P1 eq_refl P3 P4 P5 P6 P7 P8) as [H1 H2].
+  split; [exact H1|]. apply (H2 [97] [49]); [reflexivity|discriminate|left; reflexivity].
+Qed.
+
+(* requests that change nothing.  A request whose save takes one of the two early returns of save() (fixed and unchanged;
+   renew / browser unchanged within the first 10 % of the period, IEEE-double comparison) writes nothing, removes nothing,
+   sets no cookie and raises nothing: the world afterwards is the world before, except that the browser has dropped the
+   cookies whose max-age had elapsed when it sent the request; the only storage operations are loads. *)
+Theorem unchanged_request_changes_nothing : forall fresh c w b script s',
+  req_state c w b script = Some s' ->
+  dempty (s_data s') = false -> skipped (w_now w) s' = true ->
+  fst (request fresh c w b script) = set_jar w b (jar_expire (w_now w) (get_jar w b)) /\
+  o_exc (snd (request fresh c w b script)) = None /\
+  Forall (fun op => exists id f, op = OpL id f) (o_log (snd (request fresh c w b script))).
+Proof. exact request_skipped_world. Qed.
+Print Assumptions unchanged_request_changes_nothing.
+
+(* exposed_in_step over b's own later requests: after the save of r1, ANY number of steps that are quiet for b - whatever
+   happens elsewhere (not_on b), clock advances (time does not go back), and requests of b itself that leave the session
+   unchanged and are not yet due for renewal (quiet_run) - leave the cookie of every exposed value of r1's state (renew: all
+   of them) in the browser with the same end ex as the session cookie, for as long as the browser holds the session cookie *)
+Theorem exposed_in_step_across_quiet_requests : forall fresh c w b script1 s' blob ex l,
+  req_state c w b script1 = Some s' ->
+  dempty (s_data s') = false -> skipped (w_now w) s' = false -> save_data (s_data s') = Some blob ->
+  o_exc (snd (request fresh c w b script1)) = None ->
+  age_exp (w_now w) (cookie_age (w_now w) s' (newsess_of s')) = Some ex ->
+  let w1 := fst (request fresh c w b script1) in
+  quiet_run fresh c b w1 l ->
+  let w2 := fst (run fresh c w1 l) in
+  exp_live (w_now w2) ex = true ->
+  forall k v, dfind k (s_data s') = Some (v, true) -> v <> [] ->
+    s_how s' = 1%Z \/ entry_changed (s_copy s') k v = true ->
+    in_step b k v ex (jar_expire (w_now w2) (get_jar w2 b)).
+Proof. exact exposed_in_step_quiet. Qed.
+Print Assumptions exposed_in_step_across_quiet_requests.
+Example quiet_requests_nonvacuous :
+  (* renew 100 s: a=1 exposed; 3 s later an unchanged request of the same browser (within the 10 % window: early return), a
+     request of another browser, 4 s, another unchanged request: still both cookies, ending together at +100 *)
+  let c := mkcfg 0 1 100%Z 64 in
+  let l := [StT 3%Z; StR 0 []; StR 1 [Oset [97] [57]; Oexpose [97]]; StT 4%Z; StR 0 [Ohide [98]; Oerase [98]]] in
+  let w2 := fst (run fresh_hex c (fst (request fresh_hex c world0 0 [Oset [97] [49]; Oexpose [97]])) l) in
+  quiet_run fresh_hex c 0 (fst (request fresh_hex c world0 0 [Oset [97] [49]; Oexpose [97]])) l /\
+  in_step 0 [97] [49] (EAt 1000100%Z) (jar_expire (w_now w2) (get_jar w2 0)).
+Proof.
+  cbv zeta.
+  assert (quiet_run fresh_hex (mkcfg 0 1 100%Z 64) 0 (fst (request fresh_hex (mkcfg 0 1 100%Z 64) world0 0 [Oset [97] [49]; Oexpose [97]]))
+            [StT 3%Z; StR 0 []; StR 1 [Oset [97] [57]; Oexpose [97]]; StT 4%Z; StR 0 [Ohide [98]; Oerase [98]]]) as Hq.
+  { cbn [quiet_run quiet_step]. repeat split; try lia.
+    - right. eexists. split; [vm_compute; reflexivity|]. split; vm_compute; reflexivity.
+    - right. eexists. split; [vm_compute; reflexivity|]. split; vm_compute; reflexivity. }
+  split; [exact Hq|].
+  pose (s' := mksess [([97], ([49], true))] [] 100%Z 1%Z 0%Z false false).
+  (* every premise is a closed boolean / option equation, evaluated separately (never vm_compute the quiet_run proposition) *)
+  refine (exposed_in_step_across_quiet_requests fresh_hex (mkcfg 0 1 100%Z 64) world0 0%nat [Oset [97] [49]; Oexpose [97]] s' [1;12;0;0;97;49]
+            (EAt 1000100%Z) [StT 3%Z; StR 0 []; StR 1 [Oset [97] [57]; Oexpose [97]]; StT 4%Z; StR 0 [Ohide [98]; Oerase [98]]]
+            _ _ _ _ _ _ Hq _ [97] [49] _ _ _).
+  - vm_compute; reflexivity.
+  - reflexivity.
+  - vm_compute; reflexivity.
+  - vm_compute; reflexivity.
+  - vm_compute; reflexivity.
+  - vm_compute; reflexivity.
+  - vm_compute; reflexivity.
+  - reflexivity.
+  - discriminate.
+  - left. reflexivity.
+Qed.
+
+(* fixed mode needs no re-sending.  update_exposed_keeps_unchanged: when the update is not forced, the cookie of an exposed
+   value that was exposed before with the same value is left in the jar exactly as it is.  fixed_mode_save_keeps_in_step: a
+   save in fixed mode of a session that is neither new nor reset keeps the deadline that was loaded (s_tin), gives the session
+   cookie exactly that end, and leaves the cookie of every unchanged exposed value alone - cookies that ended together with the
+   session cookie before the request still do afterwards.  (reset_session() in fixed mode is the case that breaks this: see
+   exposed_not_renewed_refuted and the finding.) *)
+Theorem update_exposed_keeps_unchanged : forall now age s x k v c,
+  ssorted (s_data s) -> dfind k (s_data s) = Some (v, true) -> entry_changed (s_copy s) k v = false ->
+  In (k, c) x -> In (k, c) (update_exposed now age false s x).
+Proof. exact update_exposed_keeps. Qed.
+Print Assumptions update_exposed_keeps_unchanged.
+Theorem fixed_mode_save_keeps_in_step : forall fresh c w b s blob w1 l1 k v,
+  dempty (s_data s) = false -> ssorted (s_data s) -> skipped (w_now w) s = false -> save_data (s_data s) = Some blob ->
+  s_how s = 0%Z -> newsess_of s = false -> (w_now w < s_tin s)%Z ->
+  si_save fresh c w b s = (w1, l1, None) ->
+  dfind k (s_data s) = Some (v, true) -> entry_changed (s_copy s) k v = false ->
+  In (k, (v, EAt (s_tin s))) (j_exp (get_jar w b)) ->
+  session_age (w_now w) s false = s_tin s /\
+  (exists ck, j_sess (get_jar w1 b) = Some (ck, EAt (s_tin s))) /\
+  In (k, (v, EAt (s_tin s))) (j_exp (get_jar w1 b)).
+Proof. exact fixed_save_keeps_in_step. Qed.
+Print Assumptions fixed_mode_save_keeps_in_step.
+Definition fm_c : cfg := mkcfg 0 0 10%Z 64.
+Definition fm_w : world := Eval vm_compute in fst (run fresh_hex fm_c world0 [StR 0 [Oset [97] [49]; Oexpose [97]]; StT 4%Z]).
+Definition fm_s : sess := mksess [([97], ([49], true)); ([98], ([50], false))] [([97], ([49], true))] 10%Z 0%Z 1000010%Z false false.
+Definition fm_res : world * list sop * option exc := Eval vm_compute in si_save fresh_hex fm_c fm_w 0 fm_s.
+Example fixed_mode_nonvacuous :
+  (* fixed 10 s: a=1 exposed; 4 s later b=2 is stored: the record keeps its deadline, both cookies still end at +10 *)
+  req_state fm_c fm_w 0 [Oset [98] [50]] = Some fm_s /\
+  snd (fst fm_res) = [OpS (fresh_hex 0) 1000010%Z [1;12;0;0;97;49;1;8;0;0;98;50]] /\
+  (exists ck, j_sess (get_jar (fst (fst fm_res)) 0) = Some (ck, EAt 1000010%Z)) /\
+  In ([97], ([49], EAt 1000010%Z)) (j_exp (get_jar (fst (fst fm_res)) 0)).
+Proof.
+  split; [vm_compute; reflexivity|]. split; [vm_compute; reflexivity|].
+  assert (si_save fresh_hex fm_c fm_w 0 fm_s = (fst (fst fm_res), snd (fst fm_res), None)) as Hs by (vm_compute; reflexivity).
+  assert (ssorted (s_data fm_s)) as Hso by (cbn; repeat constructor).
+  assert (In ([97], ([49], EAt (s_tin fm_s))) (j_exp (get_jar fm_w 0))) as Hin by (vm_compute; left; reflexivity).
+  assert (skipped (w_now fm_w) fm_s = false) as Hk by (vm_compute; reflexivity).
+  assert (w_now fm_w < s_tin fm_s)%Z as Hlt by (vm_compute; reflexivity).
+  exact (proj2 (fixed_mode_save_keeps_in_step fresh_hex fm_c fm_w 0%nat fm_s [1;12;0;0;97;49;1;8;0;0;98;50] _ _ [97] [49]
+                  eq_refl Hso Hk eq_refl eq_refl eq_refl Hlt Hs eq_refl eq_refl Hin)).
+Qed.
+
+(* regression of the repaired defect exposed-cookie-expired-before-session (/repo fc690f4; the history is
+   corpus/C06/finding_exposed_expiry.case): timeout 10, renew.  The third request finds the session alive with a exposed,
+   and the browser holds the cookie of a with the lifetime of the session cookie (before the repair: j_exp j = []). *)
+Example exposed_in_step_regression :
+  let '(w, obs) := run fresh_hex (mkcfg 0 1 10%Z 64) world0
+                       [StR 0 [Oset [97] [49]; Oexpose [97]]; StT 5%Z; StR 0 [Oset [98] [50]]; StT 6%Z; StR 0 [Oset [98] [51]]] in
+  let j := jar_expire (w_now w) (get_jar w 0) in
+  nth 0 (rev obs) None = Some (mkobs (Some (true, [([97], ([49], true)); ([98], ([50], false))], 10%Z, 1%Z, false)) None
+                                      [OpL (fresh_hex 0) true; OpS (fresh_hex 0) 1000021%Z [1;12;0;0;97;49;1;8;0;0;98;51]]) /\
+  j_sess j = Some (CRaw (73 :: fresh_hex 0), EAt 1000021%Z) /\
+  j_exp j = [([97], ([49], EAt 1000021%Z))].
+Proof. vm_compute. repeat split. Qed.
+
+(* KNOWN FINDING exposed-cookie-not-renewed-with-session-cookie (replayed on the implementation by
+   corpus/C06/finding_exposed_not_renewed.case): with expiration browser - and with reset_session() in fixed mode - a
+   data-changing save moves the end of the session but does not re-send unchanged exposed values.  The faithful model shows
+   it: the last request finds the session alive with a exposed, the browser holds the session cookie but no cookie for a.
+   Full statement that does not hold:
+     forall histories, after each request of b whose session is alive and exposes k with value v <> "",
+     the jar of b contains prefix_k = v for as long as it contains the session cookie. *)
+Theorem exposed_not_renewed_refuted :
   exists c l, let '(w, obs) := run fresh_hex c world0 l in
     let j := jar_expire (w_now w) (get_jar w 0) in
-    (* the session of browser 0 is alive, exposes key a with value 1 ... *)
-    nth 0 (rev obs) None = Some (mkobs (Some (true, [([97], ([49], true)); ([98], ([50], false))], 10%Z, 1%Z, false)) None
-                                        [OpL (fresh_hex 0) true; OpS (fresh_hex 0) 1000021%Z [1;12;0;0;97;49;1;8;0;0;98;51]]) /\
-    j_sess j = Some (CRaw (73 :: fresh_hex 0), EAt 1000021%Z) /\
-    (* ... but the browser holds no cookie for it *)
+    nth 0 (rev obs) None = Some (mkobs (Some (true, [([95; 104], ([50], false)); ([97], ([49], true)); ([98], ([50], false))], 10%Z, 2%Z, false)) None
+                                        [OpL (fresh_hex 0) true; OpS (fresh_hex 0) 1000022%Z [2;8;0;0;95;104;50;1;12;0;0;97;49;1;8;0;0;98;51]]) /\
+    j_sess j = Some (CRaw (73 :: fresh_hex 0), ESession) /\
     j_exp j = [].
 Proof.
-  exists (mkcfg 0 1 10%Z 64).
-  exists [StR 0 [Oset [97] [49]; Oexpose [97]]; StT 5%Z; StR 0 [Oset [98] [50]]; StT 6%Z; StR 0 [Oset [98] [51]]].
+  exists (mkcfg 0 0 10%Z 64).
+  exists [StR 0 [Oset [97] [49]; Oexpose [97]]; StR 0 [Ohow 2%Z]; StT 6%Z; StR 0 [Oset [98] [50]]; StT 6%Z; StR 0 [Oset [98] [51]]].
   vm_compute. repeat split.
 Qed.
-Print Assumptions exposed_in_step_refuted.
+Print Assumptions exposed_not_renewed_refuted.
 
 (* ------------------------------------------------------------------------------------------------------------
    9. tie: the character class of valid_sid in the model is the one regenerated from src/session_sid.cpp *)
